@@ -2,7 +2,7 @@
 from checks_common import three
 
 CHECK = {
-    "runs": three("c16_execqueue", [], scales=(0.7, 1.0, 1.5)),
+    "runs": three("c16_execqueue", [], scales=(0.5, 0.5, 1.0)),
     "level": "fault_enumeration",
     "design_ref": "DESIGN.md §5 C16",
     "technique": "multi-producer stress of the real ConcurrentExecutionQueue over Inplace/ThreadPool/NewThread executors "
